@@ -26,7 +26,7 @@ SizeAt(i) == Sizes[(i % Len(Sizes)) + 1]
 WritesOf(plan, K, c) ==
   CASE plan = "singles" -> [i \in 1..K |-> <<SizeAt(c + i)>>]
     [] plan = "big" -> << [i \in 1..K |-> IF i < K THEN MaxPlain ELSE SizeAt(c)] >>
-    [] plan = "split" -> [i \in 1..(K \div 2) |-> <<1, SizeAt(c + i) + 1>>]
+    [] plan = "split" -> [i \in 1..(K \div 2) |-> <<1, SizeAt(c + i)>>]
 PlanOK(plan, K) == plan # "split" \/ K % 2 = 0
 
 Faults1(n) == {Fault("modify", i, 0) : i \in 1..n} \cup {Fault("drop", i, 0) : i \in 1..n}
@@ -139,6 +139,7 @@ ExpectedCombos ==
 FileOf(part) == Out \o part \o ".ndjson"
 DoPart(part) ==
   CASE part = "sched" -> LET cs == SchedCases IN
+         /\ \A i \in 1..Len(cs) : Assert(FragmentationOK(cs[i].v.writes), <<"plan violates the record size limit", i>>)
          /\ ndJsonSerialize(FileOf(part), [i \in 1..Len(cs) |-> cs[i].v])
          /\ PrintT(ToJson([part |-> "sched", cases |-> Len(cs),
                            errors |-> Cardinality({i \in 1..Len(cs) : cs[i].v.ends = <<"error">>}),
